@@ -190,6 +190,8 @@ def raw_shaped(rng, userids=(0,), avoid=()):
     uid = _pick_uid(rng, userids, avoid, 16)
     n = rng.choice([0, 1, 2, 12, 13, 15, 16, 17, 100, 1200, 4096, 9000, 65000]) if rng.random() < 0.7 else rng.randint(0, 64)
     body = rand_bytes(rng, min(n, 1500)) + b"\0" * max(0, n - 1500)
+    if rng.random() < 0.15:
+        cmd, body = 0x10, rand_bytes(rng, 16)        # a well-formed raw login with a response that is not the right one
     fr = proto.RAW_MAGIC + bytes([cmd | (uid & 15)]) + body
     if rng.random() < 0.1:
         fr = fr[:rng.randint(0, 4)]
